@@ -21,6 +21,7 @@ import (
 
 	kaifake "github.com/NVIDIA/KAI-scheduler/pkg/apis/client/clientset/versioned/fake"
 	schedulingv1alpha2 "github.com/NVIDIA/KAI-scheduler/pkg/apis/scheduling/v1alpha2"
+	enginev2alpha2 "github.com/NVIDIA/KAI-scheduler/pkg/apis/scheduling/v2alpha2"
 	"github.com/NVIDIA/KAI-scheduler/pkg/scheduler/actions"
 	"github.com/NVIDIA/KAI-scheduler/pkg/scheduler/api/eviction_info"
 	"github.com/NVIDIA/KAI-scheduler/pkg/scheduler/api/pod_info"
@@ -33,9 +34,10 @@ import (
 )
 
 var (
-	initOnce sync.Once
-	mux      = &http.ServeMux{}
-	podGVR   = schema.GroupVersionResource{Version: "v1", Resource: "pods"}
+	initOnce    sync.Once
+	mux         = &http.ServeMux{}
+	podGVR      = schema.GroupVersionResource{Version: "v1", Resource: "pods"}
+	podGroupGVR = schema.GroupVersionResource{Group: "scheduling.run.ai", Version: "v2alpha2", Resource: "podgroups"}
 )
 
 func initScheduler() {
@@ -69,6 +71,50 @@ type Store struct {
 }
 
 func NewStore(o *Objects, now time.Time) *Store {
+	s := &Store{faults: &faults{}, Now: now, linger: map[string]int{}}
+	s.install(o)
+	return s
+}
+
+// Refresh replaces the fake clientsets by new ones holding the same objects. Informers of an earlier
+// cycle leave watchers behind in the fake object tracker; nobody drains them any more and the tracker
+// panics ("channel full") once 100 events pile up. A fresh API endpoint per cycle avoids that.
+func (s *Store) Refresh() {
+	ctx := context.Background()
+	o := &Objects{}
+	for _, n := range s.NodesList() {
+		o.Nodes = append(o.Nodes, n.DeepCopy())
+	}
+	for _, p := range s.Pods() {
+		o.Pods = append(o.Pods, p.DeepCopy())
+	}
+	if l, err := s.Kube.SchedulingV1().PriorityClasses().List(ctx, metav1.ListOptions{}); err == nil {
+		for i := range l.Items {
+			o.PriorityClasses = append(o.PriorityClasses, l.Items[i].DeepCopy())
+		}
+	}
+	if l, err := s.Kai.SchedulingV2().Queues("").List(ctx, metav1.ListOptions{}); err == nil {
+		for i := range l.Items {
+			o.Queues = append(o.Queues, l.Items[i].DeepCopy())
+		}
+	}
+	if l, err := s.Kai.SchedulingV2alpha2().PodGroups("").List(ctx, metav1.ListOptions{}); err == nil {
+		for i := range l.Items {
+			o.PodGroups = append(o.PodGroups, l.Items[i].DeepCopy())
+		}
+	}
+	for _, br := range s.BindRequests() {
+		o.BindRequests = append(o.BindRequests, br.DeepCopy())
+	}
+	if l, err := s.Kai.KaiV1alpha1().Topologies().List(ctx, metav1.ListOptions{}); err == nil {
+		for i := range l.Items {
+			o.Topologies = append(o.Topologies, l.Items[i].DeepCopy())
+		}
+	}
+	s.install(o)
+}
+
+func (s *Store) install(o *Objects) {
 	var kobjs []runtime.Object
 	for _, n := range o.Nodes {
 		kobjs = append(kobjs, n)
@@ -92,7 +138,8 @@ func NewStore(o *Objects, now time.Time) *Store {
 	for _, t := range o.Topologies {
 		kaiobjs = append(kaiobjs, t)
 	}
-	s := &Store{Kube: fake.NewSimpleClientset(kobjs...), Kai: kaifake.NewSimpleClientset(kaiobjs...), faults: &faults{}, Now: now, linger: map[string]int{}}
+	s.Kube = fake.NewSimpleClientset(kobjs...)
+	s.Kai = kaifake.NewSimpleClientset(kaiobjs...)
 	// API-server semantics of pod deletion: a pod that runs on a node is only marked (graceful
 	// deletion), a pod that never reached a node disappears at once.
 	s.Kube.PrependReactor("delete", "pods", func(action k8stesting.Action) (bool, runtime.Object, error) {
@@ -125,6 +172,28 @@ func NewStore(o *Objects, now time.Time) *Store {
 		}
 		return true, nil, nil
 	})
+	// API-server semantics of the status sub-resource: only .status is taken from the submitted object (the
+	// client-go fake would replace the whole object, metadata included).
+	s.Kai.PrependReactor("update", "podgroups", func(action k8stesting.Action) (bool, runtime.Object, error) {
+		ua := action.(k8stesting.UpdateAction)
+		if ua.GetSubresource() != "status" {
+			return false, nil, nil
+		}
+		in, ok := ua.GetObject().(*enginev2alpha2.PodGroup)
+		if !ok {
+			return false, nil, nil
+		}
+		cur, err := s.Kai.Tracker().Get(podGroupGVR, in.Namespace, in.Name)
+		if err != nil {
+			return true, nil, err
+		}
+		out := cur.(*enginev2alpha2.PodGroup).DeepCopy()
+		out.Status = *in.Status.DeepCopy()
+		if err := s.Kai.Tracker().Update(podGroupGVR, out, in.Namespace); err != nil {
+			return true, nil, err
+		}
+		return true, out, nil
+	})
 	s.Kai.PrependReactor("create", "bindrequests", func(action k8stesting.Action) (bool, runtime.Object, error) {
 		f := s.faults
 		f.mu.Lock()
@@ -138,7 +207,6 @@ func NewStore(o *Objects, now time.Time) *Store {
 		}
 		return false, nil, nil
 	})
-	return s
 }
 
 func (s *Store) armFaults(sc *CycleScript) {
@@ -350,6 +418,9 @@ func schedulerConfig(c *Config) (*conf.SchedulerConfiguration, *conf.SchedulerPa
 // RunCycle runs one full scheduler cycle (fresh cache = scheduler restart) against the store.
 func RunCycle(s *Store, cfg *Config, sc *CycleScript, idx int, opt *Options) *CycleRecord {
 	initScheduler()
+	if idx > 0 {
+		s.Refresh()
+	}
 	rec := &CycleRecord{Index: idx, Before: TakeSnapshot(s), ActionCalls: map[string][2]int{}}
 	s.armFaults(sc)
 	schedConf, params := schedulerConfig(cfg)
